@@ -69,7 +69,7 @@ def left_lit(e):
     if not isinstance(e, list) or not e:
         return False
     if e[0] in CMP or e[0] in ("+", "-", "*", "/", "%", "&", "|", "^", "<<", ">>"):
-        if e[1][0] in ("lit", "idx", "enum"):
+        if e[1][0] in ("lit", "enum"):
             return True
     return any(left_lit(x) for x in e[1:] if isinstance(x, list))
 
@@ -416,13 +416,37 @@ def structure_programs(tier, rnd):
     return out
 
 
+def rangelist_history_programs(tier, rnd):
+    """mutable rangelist attribute: contents at the time of each call decide (in a class block, in an if, under foreach)"""
+    out = []
+    a = F("a")
+    bodies = {
+        "plain": [E(["in_rl", a, ["rl"]])],
+        "negated": [E(["notin_rl", a, ["rl"]]), E(["<", a, lit(20)])],
+        "under_if": [["if", [[["<", F("b"), lit(128)], [E(["in_rl", a, ["rl"]])]]], [E(["==", a, lit(77)])]]],
+        "foreach": [["foreach", ["l"], "i", [E(["in_rl", ["it", "i"], ["rl"]])]]],
+    }
+    for bn, st in bodies.items():
+        fields = [fld("a", ("u", 8)), fld("b", ("u", 8)), ["rl", "rl", [["rng", lit(1), lit(4)], lit(9)]], ["l", "list", ["u", 8], 2, True, False]]
+        pr = one_class(fields, st)
+        ops = [["randomize", ["top"]], ["randomize", ["top"]],
+               ["rl_append", ["top", "rl"], ["rng", lit(100), lit(110)]], ["randomize", ["top"]],
+               ["rl_clear", ["top", "rl"]], ["rl_append", ["top", "rl"], lit(200)], ["randomize", ["top"]],
+               ["rl_extend", ["top", "rl"], [lit(3), ["rng", lit(50), lit(51)]]], ["randomize_with", ["top"], [E([">", a, lit(2)])]],
+               ["rl_clear", ["top", "rl"]], ["rl_append", ["top", "rl"], ["rng", lit(10), lit(12)]], ["vsc_randomize", [["top"]]], ["randomize", ["top"]]]
+        out.append({"tag": "rl_history", "desc": "rangelist mutated between calls (%s)" % bn, "prog": pr,
+                    "world": [["top", "obj", "Top"]], "ops": ops})
+    return out
+
+
 def _stmts_in_F(stmts, fields):
     return True
 
 
 def c01_programs(tier, sd):
     rnd = random.Random(sd)
-    out = atomic_programs(tier, rnd) + statement_programs(tier, rnd) + structure_programs(tier, rnd) + constfold_programs(tier, rnd)
+    out = atomic_programs(tier, rnd) + statement_programs(tier, rnd) + structure_programs(tier, rnd) + constfold_programs(tier, rnd) + \
+        rangelist_history_programs(tier, rnd)
     if tier == "thorough":
         out += random_programs(rnd, 1500)
     else:
@@ -524,8 +548,11 @@ def constfold_programs(tier, rnd):
         ["not", ["==", n1, lit(3)]], ["&", ["==", n1, lit(3)], ["<", n2, n3]], ["|", ["==", n1, lit(3)], ["<", n2, n3]],
         ["in", n1, [["rng", lit(2), lit(5)], lit(9)]], ["notin", n1, [lit(3)]], ["==", ["ps", n1, 3, 0], ["ulit", 3, 4]],
         ["==", ["bit", n1, 7], ["ulit", 1, 1]], ["==", ["%", n1, n2], n3], ["==", ["/", n1, n2], n3],
+        [">=", n1, n2], ["<=", n1, n2], [">", n1, n2], ["!=", n1, n2], [">=", n1, lit(3)], ["<=", n1, lit(200)], ["!=", n1, lit(255)],
+        ["<=", s1, lit(-1)], [">=", s1, lit(-128)],
     ]
     vals = [
+        {"n1": 3, "n2": 3, "n3": 3, "s1": -1}, {"n1": 200, "n2": 200, "n3": 0, "s1": -128},
         {"n1": 3, "n2": 9, "n3": 12, "s1": -1}, {"n1": 200, "n2": 100, "n3": 44, "s1": -128}, {"n1": 3, "n2": 7, "n3": 252, "s1": 5},
         {"n1": 0x83, "n2": 0x0f, "n3": 3, "s1": 127}, {"n1": 6, "n2": 3, "n3": 2, "s1": -3}, {"n1": 128, "n2": 1, "n3": 0, "s1": 0},
         {"n1": 255, "n2": 2, "n3": 254, "s1": -2},
@@ -564,6 +591,22 @@ def constfold_programs(tier, rnd):
                                                                [c, [E(["==", ["it", "i"], lit(1)])]]], [E(["==", ["it", "i"], lit(2)])]]]]], vs))
         for sp in out[-5:]:
             sp["cond_class"] = cclass(c)
+    lfields = fields + [["l", "list", ["u", 8], 4, True, False]]
+    I = ["idx", "i"]
+    for ic in ([">=", I, lit(2)], ["<=", I, lit(1)], [">", I, lit(0)], ["<", I, lit(3)], ["==", I, lit(2)], ["!=", I, lit(0)],
+               ["<", ["+", I, lit(1)], ["size", ["l"]]], [">=", I, ["ulit", 1, 32]], ["<", I, n1], [">=", I, n1], ["==", ["&", I, lit(1)], lit(1)]):
+        if not in_F(ic, dict(t)):
+            continue
+        sp = spec_single("constfold_foreach", "foreach: if %s (index condition)" % (ic,), lfields,
+                         [["foreach", ["l"], "i", [["if", [[ic, [E(["==", ["it", "i"], lit(1)])]]], [E(["==", ["it", "i"], lit(2)])]]]]],
+                         [{"n1": 0}, {"n1": 2}, {"n1": 3}])
+        sp["cond_class"] = "index"
+        out.append(sp)
+        sp = spec_single("constfold_foreach", "foreach: neighbour under %s" % (ic,), lfields,
+                         [["foreach", ["l"], "i", [["if", [[ic, [E([">", ["it", "i"], lit(100)])]], [[">", I, lit(0)], [E(["<", ["it", "i"], F("l", ["idx", "i", -1])])]]], None]]]],
+                         [{"n1": 1}])
+        sp["cond_class"] = "index"
+        out.append(sp)
     return out
 
 
@@ -604,5 +647,5 @@ def c02_programs(tier, sd):
     base = atomic_programs(tier, rnd) + statement_programs(tier, rnd)
     if tier == "quick":
         base = [s for i, s in enumerate(base) if s["tag"] != "atomic" or i % 3 == 0]
-    return constfold_programs(tier, rnd) + unsat_programs(tier, rnd) + base + structure_programs(tier, rnd) + \
+    return constfold_programs(tier, rnd) + unsat_programs(tier, rnd) + base + structure_programs(tier, rnd) + rangelist_history_programs(tier, rnd) + \
         random_programs(random.Random(sd + 1), 1500 if tier == "thorough" else 150)
